@@ -28,6 +28,13 @@ class Deadlock(Exception):
     pass
 
 
+class Abort(BaseException):
+    """Raised inside gated threads of an execution that was cut off
+    (livelock / budget): without it a thread polling in the listener's code
+    (e.g. stop() draining a queue nobody consumes) would spin forever in the
+    background of all later executions."""
+
+
 class TState:
     def __init__(self, name):
         self.name = name
@@ -46,6 +53,7 @@ class Sched:
         self.events = []
         self.steps = 0
         self.active = True
+        self.aborted = False
         self.trace = []          # (thread, label) of every granted step
 
     # -- called from gated threads -------------------------------------------
@@ -71,10 +79,12 @@ class Sched:
             self.lock.notify_all()
 
     def point(self, label, enabled=None):
-        if not self.active:
-            return
         name = self.me()
         if name is None:            # not a gated thread (e.g. server thread)
+            return
+        if not self.active:
+            if self.aborted:
+                raise Abort()
             return
         st = self.ts[name]
         with self.lock:
@@ -84,6 +94,8 @@ class Sched:
             self.running -= 1
             self.lock.notify_all()
         st.go.acquire()
+        if not self.active and self.aborted:
+            raise Abort()
 
     def emit(self, **ev):
         self.events.append(ev)
@@ -144,8 +156,10 @@ class Sched:
             self.grant(chooser(rd, self))
         return "budget"
 
-    def release_all(self):
-        """Machinery cleanup: let every thread run freely to its end."""
+    def release_all(self, abort=False):
+        """Machinery cleanup: let every thread run freely to its end, or -
+        when the execution was cut off - make it unwind (Abort)."""
+        self.aborted = abort
         self.active = False
         for t in self.ts.values():
             if t.state == "ready":
@@ -321,6 +335,12 @@ class Scenario:
                 super().start()
 
             def run(self):
+                try:
+                    self._gated_run()
+                except Abort:
+                    pass
+
+            def _gated_run(self):
                 sched.begin("cb")
                 try:
                     super().run()
@@ -399,7 +419,13 @@ class Scenario:
 
     def main_body(self):
         sched = self.sched
-        sched.begin("main")
+        try:
+            sched.begin("main")
+            self._main(sched)
+        except Abort:
+            pass
+
+    def _main(self, sched):
         try:
             rounds = 2 if self.restart else 1
             for r in range(rounds):
@@ -428,6 +454,12 @@ class Scenario:
             sched.end()
 
     def sender_body(self, s):
+        try:
+            self._sender(s)
+        except Abort:
+            pass
+
+    def _sender(self, s):
         sched = self.sched
         sched.begin(s)
         try:
@@ -465,6 +497,7 @@ class Scenario:
                                             name=s, daemon=True))
             for t in ths:
                 t.start()
+            outcome = "machinery:unfinished"
             try:
                 outcome = sched.run(chooser, max_steps)
             except Deadlock as exc:
@@ -472,7 +505,7 @@ class Scenario:
             sched.emit(ev="end", outcome=outcome)
             return outcome
         finally:
-            sched.release_all()
+            sched.release_all(abort=outcome != "done")
             if self.server is not None:
                 self.server._ev.set()
             self.uninstall()
